@@ -84,3 +84,15 @@ package codec
 //@ func (*Codec).MarshalBinaryBare
 //@   trusted external codec (amino / gogoproto reflection): reads its argument, returns fresh bytes
 //@   pure_fn
+//@ func (*Codec).LegacyMarshalBinaryLengthPrefixed
+//@   trusted external codec (amino reflection): reads its argument, returns fresh bytes
+//@   pure_fn
+//@ func (*Codec).LegacyUnmarshalBinaryLengthPrefixed
+//@   trusted external codec (amino reflection): writes only through the pointer argument
+//@   modifies heap
+//@ func (*Codec).LegacyMarshalBinaryBare
+//@   trusted external codec (amino reflection): reads its argument, returns fresh bytes
+//@   pure_fn
+//@ func (*Codec).LegacyUnmarshalBinaryBare
+//@   trusted external codec (amino reflection): writes only through the pointer argument
+//@   modifies heap
